@@ -268,6 +268,14 @@ def _literal_result_size(op: ast.AST, left: object, right: object) -> int:
     Returns 0 for operations where the result cannot be much larger than the operands.
 
     """
+    # Exact types only: an object may claim any __class__
+    left_type = type(left)
+    right_type = type(right)
+    if not (
+        issubclass(left_type, (int, *_SEQUENCE_LITERAL_TYPES))
+        and issubclass(right_type, (int, *_SEQUENCE_LITERAL_TYPES))
+    ):
+        return 0
     if isinstance(left, int) and isinstance(right, int):
         if isinstance(op, ast.Pow):
             return left.bit_length() * right
